@@ -305,8 +305,14 @@ func (r *Reader) readXRefStream(xref map[uint32]*xRefEntry, s *scanner) (Dict, R
 		return nil, 0, err
 	}
 	err = decodeXRefStream(xref, decoded, w, ss)
+	// Only as many entries as the dictionary asks for are read: the decoder
+	// must be closed in every case.
+	closeErr := decoded.Close()
 	if err != nil {
 		return nil, 0, err
+	}
+	if closeErr != nil {
+		return nil, 0, closeErr
 	}
 
 	return dict, ref, nil
